@@ -159,7 +159,7 @@ Definition parseval_cases_modelled : list (bytes * bytes) :=
     (B"uint8", B"return newInt(int(v))");
     (B"float64", B"return newFloat(v)"); (B"float32", B"return newFloat(float64(v))");
     (B"nil", B"return newNil()");
-    (B"default", B"panic(""incompatible type"")") ].
+    (B"default", B"panic") ].
 (* same set of (type, action) pairs; the order of the cases does not matter (Go type switches on distinct types are order-insensitive) *)
 Definition case_eqb (a b : bytes * bytes) : bool := bytes_eqb (fst a) (fst b) && bytes_eqb (snd a) (snd b).
 Definition tables_equiv (a b : list (bytes * bytes)) : bool :=
